@@ -487,7 +487,7 @@ def check_cases_sep(name, header, exprs, shard, timeout):
     if any(v is None for v in vals) and not elogs: elogs.append({'log': 'no value for some cases'})
     return fails, elogs
 
-RX = {'coq': 'no_rfixes'}
+RX = {'coq': 'all_rfixes'}
 
 def fn_body(src, name):
     m = re.search(r'\bfn %s\s*(<[^>]*>)?\s*\(' % re.escape(name), src)
@@ -605,6 +605,42 @@ def fuse_cleanup():
         except Exception: pass
     del _fuse_procs[:]
 
+def exact_chunk_sizes(dc, plus, k=0):
+    """sizes for which a request from index k ends mid-directory at a visible entry X with every record of the
+    getdents64 batch delivered, so that the cookie cached for the handle is exactly the offset of X"""
+    o = dc.oracle; out = []
+    for size in range(32, 1400, 8):
+        if k < len(o) and o[k][4] > size: continue
+        b = model_batch(o, k, size)
+        if not b or b[-1] == len(o) - 1 or is_dot(o[b[-1]][0]): continue
+        tot = 0; ok = True
+        for i in b:
+            if is_dot(o[i][0]): continue
+            tot += fuse_size(o[i][0], plus)
+            if tot > size: ok = False; break
+        if ok and any(not is_dot(o[i][0]) for i in range(b[-1] + 1, len(o))):
+            if not out or out[-1][1] != b[-1]: out.append((size, b[-1]))
+    return out
+
+def goback_history(cl, rng, dc, nodeid, fhs, plus_refs):
+    """deterministic go-back patterns on ONE handle: a chunk that ends at X (cookie cached = X), then a request from
+    another offset (the end-of-directory cookie: empty reply; offset 0; some other entry), then going back to X"""
+    hist = []
+    fh = fhs[0]
+    do_request(cl, dc, nodeid, fh, 4096, 0, False, hist, None, plus_refs)          # prime the fresh handle
+    o = dc.oracle
+    eof = o[-1][2]
+    for plus in (False, True):
+        cands = exact_chunk_sizes(dc, plus)
+        picks = cands[:2] + cands[len(cands) // 2:len(cands) // 2 + 1] + cands[-1:]
+        for size, xi in picks:
+            X = o[xi][2]
+            for other in (eof, 0, o[rng.randrange(len(o))][2]):
+                do_request(cl, dc, nodeid, fh, size, 0, plus, hist, None, plus_refs)          # chunk ending at X
+                do_request(cl, dc, nodeid, fh, max(size, 512), other, plus, hist, None, plus_refs)   # elsewhere (EOF: empty reply)
+                do_request(cl, dc, nodeid, fh, max(size, 512), X, plus, hist, None, plus_refs)       # go back: resume from X
+    return hist
+
 def stream_set(rng, dc, fhs, quick):
     """the resume patterns: sequential, go-back (start at the offset of some entry), interleaved handles, plain/plus"""
     S = []; sid = 0
@@ -643,11 +679,16 @@ def run_check(tier, seed):
     findings, broken = [], []
     rng = random.Random(seed)
     quick = tier == 'quick'
-    rx, rxerr = read_rfixes(REPO)
-    if rx is None:
-        broken.append({'kind': 'translator', 'item': 'props/c16.py read_rfixes', 'error': rxerr}); rx = {'rx_refill': False, 'rx_scanlen': False}
-    RX['coq'] = '(mk_rfixes %s %s)' % ('true' if rx['rx_refill'] else 'false', 'true' if rx['rx_scanlen'] else 'false')
-    ev.cov['code_variant'] = dict(rx, decided_by=('C16_full_when_fixed (seekable hosts)' if rx['rx_refill'] else 'C16_refuted + C16_exactly_once_partial'))
+    # the theorems (C16_full) are about the model with both repairs of do_readdir (commits 9ef9710, 55956bc); the
+    # source must have them
+    rx_src, rxerr = read_rfixes(REPO)
+    if rx_src is None:
+        broken.append({'kind': 'translator', 'item': 'props/c16.py read_rfixes', 'error': rxerr})
+    elif not all(rx_src.values()):
+        broken.append({'kind': 'translator', 'item': 'do_readdir in src/passthrough/sync_io.rs no longer contains a repair the model has',
+                       'missing': [k for k, v in rx_src.items() if not v]})
+    RX['coq'] = 'all_rfixes'
+    ev.cov['code_variant'] = {'model': 'all_rfixes', 'source_reading': rx_src, 'decided_by': 'C16_full'}
     t0 = time.time()
     std_audit(ev, PROP, broken)
     log('C16: coq audit %.1fs' % (time.time() - t0)); t0 = time.time()
@@ -721,6 +762,21 @@ def run_check(tier, seed):
                                 r = hist[min(1, len(hist) - 1)]
                                 samples.append({'dir': dc.label, 'config': cfgdesc, 'request': {k: r[k] for k in ('fh', 'size', 'off', 'plus')},
                                                 'reply': [e['name'].decode(errors='replace')[:20] for e in r.get('ents', [])][:6], 'res': r['res']})
+                        if not noopendir and 3 <= len(dc.visible) and len(dc.oracle) <= 400 and (kind == 'passthrough' or not quick):
+                            # deterministic class: go back to a cached cookie after another request moved the fd
+                            for fh in fhs: cl.releasedir(nodeid, fh)
+                            fhs = []
+                            for _ in range(3):
+                                err, fh = cl.opendir(nodeid)
+                                if err: raise FuseError('opendir -> %d' % err)
+                                fhs.append(fh)
+                            hist = goback_history(cl, rng, dc, nodeid, fhs, plus_refs)
+                            evals += len(hist)
+                            findings += judge_history(dc, hist, [], cfgdesc)
+                            dn = 'dir_%s_%s' % (fsname, dc.name); headers[dn] = dc
+                            exprs.append((dn, model_exprs(dn, noopendir, fhs, hist, len(dc.oracle) <= 12, kind == 'passthrough')))
+                            expr_meta.append({'dir': dc.label, 'config': cfgdesc, 'pattern': 'go-back after another offset on one handle',
+                                              'requests': [{k: r[k] for k in ('fh', 'size', 'off', 'plus')} for r in hist][:60], 'n_requests': len(hist)})
                         if len(dc.oracle) <= 400:
                             evals += check_plus_refs(cl, plus_refs, None, findings, cfgdesc)
                             evals += check_no_stray_refs(cl, nodeid, dc, findings, cfgdesc)
